@@ -492,7 +492,8 @@ static void emit_rp(hx_rng *r)
    for (i = 0; i < nin; i++) {
       int M = hx_range(r, 1, 3), fs = hx_range(r, 1, 6), n, pos = 0, el, k;
       unsigned char ebuf[3000];
-      if (tot + M > 12) M = 1;
+      if (tot + M > 12) M = 12 - tot;        /* at most 12 frames (120 ms at 10 ms per frame) */
+      if (M < 1) break;
       n = make_list(r, hx_u(r, 2), 0);
       /* restrict frames to < M and payloads to small sizes */
       for (k = 0; k < g_nb; k++) { g_list[k].frame %= M; if (g_list[k].len > 300) g_list[k].len = 300; }
@@ -504,8 +505,9 @@ static void emit_rp(hx_rng *r)
       if (el > 0) { int pl = el; while (pl > 254) { pk[i][pos++] = 255; pl -= 254; } pk[i][pos++] = (unsigned char)pl; }
       for (j = 0; j < M * fs; j++) pk[i][pos++] = (unsigned char)hx_u(r, 256);
       if (el > 0) { memcpy(pk[i] + pos, ebuf, (size_t)el); pos += el; }
-      plen[i] = pos; pfr[i] = M; tot += M;
+      plen[i] = pos; pfr[i] = M;
       ret = opus_repacketizer_cat(rp, pk[i], pos);
+      if (ret == 0) tot += M;               /* a refused packet adds no frames (recorded with its cat value) */
       {  /* what the parser says this input carries */
          const unsigned char *pad = NULL; opus_int32 padlen = 0; opus_int16 sz[48]; unsigned char t; int po;
          int c = opus_packet_parse_impl(pk[i], pos, 0, &t, NULL, sz, &po, NULL, &pad, &padlen);
